@@ -194,6 +194,7 @@ impl<'ast> LoweringContext<'ast> {
     fn lower_enum(&mut self, item: ItemAndInfo<'ast, ast::Enum>) -> Result<EnumDef, ()> {
         let ast_enum = item.item;
         self.errors.set_item(ast_enum.name.as_str());
+        let docs = self.lower_docs(&ast_enum.docs);
         let name = self.lower_ident(&ast_enum.name, "enum name");
         let attrs = self.attr_validator.attr_from_ast(
             &ast_enum.attrs,
@@ -211,7 +212,7 @@ impl<'ast> LoweringContext<'ast> {
             match (name, &mut variants) {
                 (Ok(name), Ok(variants)) => {
                     let variant = EnumVariant {
-                        docs: docs.clone(),
+                        docs: self.lower_docs(docs),
                         name,
                         discriminant: *discriminant,
                         attrs,
@@ -241,7 +242,7 @@ impl<'ast> LoweringContext<'ast> {
         };
 
         let def = EnumDef::new(
-            ast_enum.docs.clone(),
+            docs,
             name?,
             variants?,
             methods,
@@ -261,6 +262,7 @@ impl<'ast> LoweringContext<'ast> {
     fn lower_opaque(&mut self, item: ItemAndInfo<'ast, ast::OpaqueType>) -> Result<OpaqueDef, ()> {
         let ast_opaque = item.item;
         self.errors.set_item(ast_opaque.name.as_str());
+        let docs = self.lower_docs(&ast_opaque.docs);
         let name = self.lower_ident(&ast_opaque.name, "opaque name");
         let dtor_abi_name = self.lower_ident(&ast_opaque.dtor_abi_name, "opaque dtor abi name");
 
@@ -284,7 +286,7 @@ impl<'ast> LoweringContext<'ast> {
         let lifetimes = self.lower_type_lifetime_env(&ast_opaque.lifetimes);
 
         let def = OpaqueDef::new(
-            ast_opaque.docs.clone(),
+            docs,
             name?,
             methods,
             attrs,
@@ -303,6 +305,7 @@ impl<'ast> LoweringContext<'ast> {
     fn lower_struct(&mut self, item: ItemAndInfo<'ast, ast::Struct>) -> Result<StructDef, ()> {
         let ast_struct = item.item;
         self.errors.set_item(ast_struct.name.as_str());
+        let docs = self.lower_docs(&ast_struct.docs);
         let struct_name = self.lower_ident(&ast_struct.name, "struct name")?;
 
         let mut fields = Ok(Vec::with_capacity(ast_struct.fields.len()));
@@ -341,7 +344,7 @@ impl<'ast> LoweringContext<'ast> {
 
                 match (ty, &mut fields) {
                     (Ok(ty), Ok(fields)) => fields.push(StructField {
-                        docs: docs.clone(),
+                        docs: self.lower_docs(docs),
                         name,
                         ty,
                         attrs: field_attrs,
@@ -375,7 +378,7 @@ impl<'ast> LoweringContext<'ast> {
             )?
         };
         let def = StructDef::new(
-            ast_struct.docs.clone(),
+            docs,
             struct_name,
             fields?,
             methods,
@@ -395,6 +398,7 @@ impl<'ast> LoweringContext<'ast> {
     fn lower_trait(&mut self, item: ItemAndInfo<'ast, ast::Trait>) -> Result<TraitDef, ()> {
         let ast_trait = item.item;
         self.errors.set_item(ast_trait.name.as_str());
+        let docs = self.lower_docs(&ast_trait.docs);
         let trait_name = self.lower_ident(&ast_trait.name, "trait name")?;
 
         let attrs = self.attr_validator.attr_from_ast(
@@ -424,7 +428,7 @@ impl<'ast> LoweringContext<'ast> {
             fcts
         };
         let lifetimes = self.lower_type_lifetime_env(&ast_trait.lifetimes);
-        let def = TraitDef::new(ast_trait.docs.clone(), trait_name, fcts, attrs, lifetimes?);
+        let def = TraitDef::new(docs, trait_name, fcts, attrs, lifetimes?);
 
         self.attr_validator
             .validate(&def.attrs, AttributeContext::Trait(&def), &mut self.errors);
@@ -470,7 +474,7 @@ impl<'ast> LoweringContext<'ast> {
             output: Box::new(output),
             name: Some(self.lower_ident(&name, "trait name")?),
             attrs: Some(attrs),
-            docs: Some(ast_trait_method.docs.clone()),
+            docs: Some(self.lower_docs(&ast_trait_method.docs)),
         })
     }
 
@@ -480,6 +484,7 @@ impl<'ast> LoweringContext<'ast> {
     ) -> Result<OutStructDef, ()> {
         let ast_out_struct = item.item;
         self.errors.set_item(ast_out_struct.name.as_str());
+        let docs = self.lower_docs(&ast_out_struct.docs);
         let name = self.lower_ident(&ast_out_struct.name, "out-struct name");
 
         let attrs = self.attr_validator.attr_from_ast(
@@ -516,7 +521,7 @@ impl<'ast> LoweringContext<'ast> {
 
                     match (name, ty, &mut fields) {
                         (Ok(name), Ok(ty), Ok(fields)) => fields.push(OutStructField {
-                            docs: docs.clone(),
+                            docs: self.lower_docs(docs),
                             name,
                             ty,
                             attrs: self.attr_validator.attr_from_ast(
@@ -547,7 +552,7 @@ impl<'ast> LoweringContext<'ast> {
 
         let lifetimes = self.lower_type_lifetime_env(&ast_out_struct.lifetimes);
         let def = OutStructDef::new(
-            ast_out_struct.docs.clone(),
+            docs,
             name?,
             fields?,
             methods,
@@ -562,6 +567,22 @@ impl<'ast> LoweringContext<'ast> {
             &mut self.errors,
         );
         Ok(def)
+    }
+
+    /// Carries docs over to the HIR, reporting `rust_link`s whose path has fewer segments than their
+    /// kind needs (no URL can be generated for those).
+    fn lower_docs(&mut self, docs: &ast::Docs) -> ast::Docs {
+        for rust_link in docs.rust_links() {
+            if rust_link.path.elements.len() < rust_link.min_path_len() {
+                self.errors.push(LoweringError::Other(format!(
+                    "rust_link path `{}` is too short for {:?}: expected at least {} segments",
+                    rust_link.path,
+                    rust_link.typ,
+                    rust_link.min_path_len()
+                )));
+            }
+        }
+        docs.clone()
     }
 
     /// Lowers an [`ast::Method`]s an [`hir::Method`].
@@ -603,7 +624,7 @@ impl<'ast> LoweringContext<'ast> {
 
         let abi_name = self.lower_ident(&method.abi_name, "method abi name")?;
         let hir_method = Method {
-            docs: method.docs.clone(),
+            docs: self.lower_docs(&method.docs),
             name: name?,
             abi_name,
             lifetime_env,
